@@ -43,9 +43,10 @@ def main():
     src = "/tmp/seed_%s/SEED" % sid
     dst = os.path.join(V, "seeded", sid)
     os.makedirs(dst, exist_ok=True)
-    for f in os.listdir(src):
-        if os.path.isfile(os.path.join(src, f)):
-            shutil.copy(os.path.join(src, f), os.path.join(dst, f))
+    if os.path.isdir(src):
+        for f in os.listdir(src):
+            if os.path.isfile(os.path.join(src, f)):
+                shutil.copy(os.path.join(src, f), os.path.join(dst, f))
     meta = json.load(open(os.path.join(dst, "meta.json")))
     wt = "/tmp/seedchk_%s" % sid
     sh("git -C /repo worktree remove --force %s" % wt)
@@ -83,6 +84,10 @@ def main():
         shutil.rmtree(priv, True)
     finally:
         sh("git -C /repo worktree remove --force %s" % wt)
+    runs = meta.get("verification_history", [])
+    if "verification" in meta:
+        runs.append({"checks": meta["verification"].get("checks"), "repo_head": meta["verification"].get("repo_head")})
+    meta["verification_history"] = runs[-4:]
     meta["verification"] = res
     json.dump(meta, open(os.path.join(dst, "meta.json"), "w"), indent=1)
     print(json.dumps(res, indent=1)[:3000])
